@@ -371,4 +371,8 @@ Section Fuel.
   Proof.
     intros f f' s x y H1 H2. apply pvalue_complete in H1. apply pvalue_complete in H2. congruence.
   Qed.
+
+  Lemma pelems_bound : forall f s acc l r, pelems f ctl s acc = Some (l, r) ->
+    forall F, (2 * (length s - length r) <= F)%nat -> pelems F ctl s acc = Some (l, r).
+  Proof. intros f. apply (proj1 (proj2 (bound_all f))). Qed.
 End Fuel.
